@@ -171,6 +171,10 @@ func toG(e ast.Expr, nm namer) *G {
 		if convFuncs[fn] && len(x.Args) == 1 {
 			return toG(x.Args[0], nm)
 		}
+		// time.Duration.Nanoseconds() is the duration's integer value
+		if sel, ok := x.Fun.(*ast.SelectorExpr); ok && sel.Sel.Name == "Nanoseconds" && len(x.Args) == 0 {
+			return toG(sel.X, nm)
+		}
 		if n, ok := nm(exprString(e)); ok {
 			return gVar(n)
 		}
